@@ -1212,10 +1212,13 @@ def rt_c17(tier="quick", first_only=False, count=None):
     name, d, cd = dists[1]
     prior = Dm.Normal(jnp.array([0.1, 0.3]), jnp.array([1.5, 0.7]))
     for B, nc in ((3, 1), (5, 2), (5, 4), (8, 3)):
-        for seed in (0, 1):
+        for seed in (0, 1, 2):
             n += 1
             rng = np.random.default_rng(B * 10 + nc)
-            x = jnp.asarray(rng.normal(size=(B, 2)))
+            # seed 2: widely spread data (a badly fitting model): logits differ by hundreds of nats, the loss must stay the
+            # finite log-sum-exp value (a softmax that underflows would give inf)
+            spread = 60.0 if seed == 2 else 1.0
+            x = jnp.asarray(rng.normal(size=(B, 2)) * spread)
             c = jnp.asarray(rng.normal(size=(B, cd)))
             key = jr.PRNGKey(seed)
             p_, s_ = part(d)
@@ -1233,8 +1236,8 @@ def rt_c17(tier="quick", first_only=False, count=None):
                 con = [float(lq(x[j], c[i])) for j in idxs[i]]
                 rows.append(-(pos - float(np_lse(con + [pos]))))
             ref = float(np.mean(rows))
-            if not _close(got, ref, tol=1e-8):
-                add(f"ContrastiveLoss(batch {B}, n_contrastive {nc}) = {got!r}; softmax cross-entropy over the same index sets = {ref!r}", case)
+            if not (np.isfinite(got) and _close(got, ref, tol=1e-8)):
+                add(f"ContrastiveLoss(batch {B}, n_contrastive {nc}, data scale {spread:g}) = {got!r}; softmax cross-entropy over the same index sets = {ref!r}", case)
             if got < -1e-12:
                 add(f"ContrastiveLoss is negative: {got!r}", case)
         if first_only and fails:
@@ -1716,6 +1719,7 @@ def bijection_zoo(seed=0):
         ("Reshape", B.Reshape(aff(4), (2, 2)), None), ("EmbedCondition", B.EmbedCondition(B.AdditiveCondition(_zoo_sum, (2,), (1,)), _zoo_first_doubled, (3,)), 3),
         ("EmbedCondition(Linear net)", B.EmbedCondition(B.AdditiveCondition(eqx.nn.Linear(2, 2, key=jr.fold_in(k, 7)), (2,), (2,)), eqx.nn.Linear(3, 2, key=jr.fold_in(k, 8)), (3,)), 3),
         ("Coupling", _perturb(B.Coupling(k, transformer=B.Affine(), untransformed_dim=1, dim=3, nn_width=4, nn_depth=1), 2), None),
+        ("Coupling(spline transformer)", _perturb(B.Coupling(k, transformer=B.RationalQuadraticSpline(knots=3, interval=2.0), untransformed_dim=1, dim=3, nn_width=4, nn_depth=1), 7, scale=0.6), None),
         ("Coupling(cond)", _perturb(B.Coupling(k, transformer=B.Affine(), untransformed_dim=2, dim=3, cond_dim=2, nn_width=4, nn_depth=1), 3), 2),
         ("MaskedAutoregressive(uncond, spline)", _perturb(B.MaskedAutoregressive(k, transformer=B.RationalQuadraticSpline(knots=3, interval=2.0), dim=3, nn_width=5, nn_depth=1), 6), None),
         ("MaskedAutoregressive", _perturb(B.MaskedAutoregressive(k, transformer=B.Affine(), dim=3, cond_dim=2, nn_width=4, nn_depth=1), 2), 2),
